@@ -33,25 +33,32 @@ Small(X) == CASE X.g = "SO3" -> QNorm(X.q) <= 20000
               [] X.g = "SE23" -> QNorm(X.q) <= 30 /\ X.pd <= 60 /\ \A i \in 1..3 : Abs(X.p[i]) <= 300 /\ Abs(X.v[i]) <= 300
               [] X.g = "SE2" -> X.cs[3] <= 200 /\ X.pd <= 200 /\ Abs(X.p[1]) <= 2000 /\ Abs(X.p[2]) <= 2000
               [] X.g = "Prod" -> \A i \in 1..Len(X.fs) : (IF X.fs[i].g = "SO3" THEN QNorm(X.fs[i].q) <= 2000 ELSE TRUE)   \* (IF, not \/: inside an action TLC explores both disjuncts)
+(* MRP registers: the CODE's representative decides which products are singular.  A conversion into MRP
+   always returns the non-shadow MRP (w >= 0), so the abstract element is re-signed accordingly; half
+   turns (w = 0: |r| = 1, either sign) are kept out of MRP registers because the sign the code picks is
+   not determined by the rotation (false alarm of the first version: a 360-degree singular product was
+   hit by the code's representative while the spec's opposite sign predicted a regular one)            *)
+MrpDet(X) == IF X.g \in {"SO3", "SE3", "SE23"} THEN (X.rep = "mrp" => X.q[1] # 0) ELSE TRUE
 SameRep(X, Y) == IF X.g \in {"SO3", "SE3", "SE23"} THEN X.rep = Y.rep ELSE TRUE
 
 InitCh == /\ tv = 0
           /\ \E k \in Fams : \E a \in Start(k), b \in { X \in Start(k) : Few(X) }, c \in { X \in Start(k) : Few(X) } :
-                /\ Valid(a) /\ Valid(b) /\ Valid(c)
+                /\ Valid(a) /\ Valid(b) /\ Valid(c) /\ MrpDet(a) /\ MrpDet(b) /\ MrpDet(c)
                 /\ reg = <<a, b, c>> /\ hist = <<RMRed(Mat(a)), RMRed(Mat(b)), RMRed(Mat(c))>>
                 /\ last = [op |-> "init", fam |-> k]
 Mul(i, j, k) == SameRep(reg[i], reg[j]) /\ \E Z \in {Norm(Prod(reg[i], reg[j]))} :
-   /\ Valid(Z) /\ Small(Z)
+   /\ Valid(Z) /\ Small(Z) /\ MrpDet(Z)
    /\ reg' = [reg EXCEPT ![k] = Z]
    /\ hist' = [hist EXCEPT ![k] = RMMul(hist[i], hist[j])]
    /\ last' = [op |-> "mul", i |-> i, j |-> j, k |-> k]
 InvA(i, k) == \E Z \in {Norm(Inv(reg[i]))} :
-   /\ Valid(Z) /\ Small(Z)
+   /\ Valid(Z) /\ Small(Z) /\ MrpDet(Z)
    /\ reg' = [reg EXCEPT ![k] = Z]
    /\ hist' = [hist EXCEPT ![k] = RMRed(Mat(Z))]          \* checked to be the matrix inverse by InvHist
    /\ last' = [op |-> "inv", i |-> i, k |-> k]
 Conv(i, rep) == /\ reg[i].g = "SO3" /\ reg[i].rep # rep
-                /\ \E Z \in {[reg[i] EXCEPT !.rep = rep]} : Valid(Z)
+                /\ \E Z \in {[reg[i] EXCEPT !.rep = rep, !.q = IF rep = "mrp" /\ reg[i].q[1] < 0 THEN QNeg(reg[i].q) ELSE reg[i].q]} :
+                      Valid(Z) /\ MrpDet(Z)
                       /\ reg' = [reg EXCEPT ![i] = Z] /\ UNCHANGED hist
                       /\ last' = [op |-> "conv", i |-> i, rep |-> rep]
 NextCh == UNCHANGED tv /\
